@@ -13,7 +13,9 @@ computed with the function under test or a pypose function sharing its code:
              estimate, Max >= RMSE >= Mean >= Min >= 0, the returned statistics are statistics of
              one error vector, arguments untouched, second identical call identical, and (only on
              inputs where the documented error formulas leave no room: equal rotations,
-             frame pairing) the documented pairs / translation errors themselves;
+             frame pairing) the documented pairs / translation errors themselves; ape on trajectories
+             of different lengths (estimate longer / shorter) against the error of the estimate aligned
+             by an own Umeyama fit (translation / angle error types);
   geodesic   rotation angle in [0, pi] of R_x R_y^T from reference matrices, symmetry, reductions.
 """
 import math
@@ -35,7 +37,7 @@ RULE = ("chspline: every point count 2..60 x a list of intervals (1/3, 0.1, 0.7,
         "bspline: pose counts 4..60 (2..60 with extrapolate), same interval list, batch shapes, both dtypes: "
         "constant-twist trajectories (rotation per step up to 3.0 rad), random walks for equivariance under a random "
         "fixed pose, interval 1e-3 for continuity; ape/rpe: random-walk trajectories of 3..200 poses (incl. 3, 4, 200), "
-        "estimate = noisy / transformed / sub-sampled copy, timestamps with jitter <= 0.4*diff and spacing >= 5*diff, "
+        "estimate = noisy / transformed / sub-sampled / denser copy in its own frame and scale, timestamps with jitter <= 0.4*diff and spacing >= 5*diff, "
         "offsets, all five error types, frame and distance pairing with/without all_pairs and rpair; geodesic_loss: all "
         "eight LieTensor types and mixed group types, relative angle on a ladder from 0 over eps, sqrt(eps) to pi-1e-12 and "
         "pi, random axes, batch shapes, both dtypes, the three reductions and the module. One case = one call with its "
@@ -842,6 +844,123 @@ def check_planted(ck, rng, N):
             judge("rpe", st, errs, kw, f"rpe/translation/frame/all={all_pairs}/delta={'1' if delta == 1 else '>1'}")
 
 
+def umeyama(src, dst, with_scale):
+    """Least-squares similarity (s, R, t) with dst ~ s R src + t (Umeyama 1991), numpy float64 SVD,
+    refined products in longdouble.  Independent of pypose."""
+    src, dst = L.ld(src), L.ld(dst)
+    n = src.shape[0]
+    ms, md = src.mean(0), dst.mean(0)
+    S, D = src - ms, dst - md
+    H = f64(np.matmul(D.T, S) / n)
+    U, sig, Vt = np.linalg.svd(H)
+    d = np.sign(np.linalg.det(U) * np.linalg.det(Vt))
+    M = np.diag([1.0, 1.0, d])
+    R = L.ld(U @ M @ Vt)
+    var = float((S * S).sum() / n)
+    s = LD(float((sig * np.diag(M)).sum()) / var) if with_scale else LD(1)
+    t = md - s * np.matmul(R, ms)
+    return s, R, t
+
+
+def stats_vs_errors(st, errs):
+    """Largest deviation of the returned statistics from those of the error vector `errs`
+    (Median: anywhere between the middle order statistics; STD: either ddof)."""
+    e = np.sort(f64(errs))
+    n = len(e)
+    worst = max(abs(st["Max"] - e[-1]), abs(st["Min"] - e[0]), abs(st["Mean"] - e.mean()),
+                abs(st["RMSE"] - math.sqrt((e ** 2).mean())),
+                abs(math.sqrt(max(st["SSE"], 0.0) / n) - math.sqrt((e ** 2).sum() / n)))
+    lo, hi = e[(n - 1) // 2], e[n // 2]
+    worst = max(worst, lo - st["Median"], st["Median"] - hi)
+    if n >= 2:
+        worst = max(worst, min(abs(st["STD"] - e.std(ddof=1)), abs(st["STD"] - e.std(ddof=0))))
+    if not all(np.isfinite(st[k]) for k in ("Max", "Min", "Mean", "Median", "RMSE", "SSE")):
+        worst = np.inf
+    return float(worst)
+
+
+def check_unequal(ck, rng, N, mode):
+    """Trajectories of different lengths (estimate shorter / longer than the reference / equal): ape with
+    align and scale against (a) invariance under a rigid / similarity transform of the estimate and (b) the
+    error of the estimate aligned by an own Umeyama fit, for the error types whose documented formula is
+    unambiguous (translation, radian, degree)."""
+    u = 2.0 ** -52
+    refM = random_walk(rng, 1, N, float(rng.choice([0.2, 1.0])), float(rng.choice([0.05, 1.0, 20.0])),
+                       t_scale=float(rng.choice([1.0, 50.0])))[0]
+    tstep = float(np.linalg.norm(f64(refM[1:, :3, 3] - refM[:-1, :3, 3]), axis=-1).mean())
+    estM = perturbed(rng, refM, float(rng.choice([1e-3, 0.05, 0.6])), tstep * float(rng.choice([1e-3, 0.05, 0.5])))
+    # the estimate lives in its own frame and scale
+    s0 = float(np.exp(rng.uniform(-1.0, 1.0)))
+    S0 = random_pose_mats(rng, 1, float(rng.choice([1.0, 30.0])))[0]
+    S0[:3, :3] = S0[:3, :3] * LD(s0)
+    estM = sim_apply(S0, estM)
+    diff = 0.01
+    base = make_stamps(rng, N, diff)
+    offset = float(rng.choice([0.0, 0.37, -1.5]))
+    keep = np.arange(N)
+    if mode != "equal":
+        keep = np.sort(rng.choice(N, size=max(3, int(N * rng.uniform(0.35, 0.8))), replace=False))
+    jit = rng.uniform(-0.4, 0.4, N) * diff
+    if mode == "est-longer":
+        ref = Traj(base[keep], refM[keep])
+        est_full = (base + jit - offset, estM)
+    elif mode == "est-shorter":
+        ref = Traj(base, refM)
+        est_full = ((base + jit - offset)[keep], estM[keep])
+    else:
+        ref = Traj(base, refM)
+        est_full = (base + jit - offset, estM)
+    est = Traj(est_full[0], est_full[1])
+    nm = len(keep)
+    ck.mark(f"ape/lengths:{mode}")
+    # the matched poses as actually passed (rounded)
+    rA = se3_mats(lie.lt("SE3", mats_to_se3(refM[keep])))
+    eA = se3_mats(lie.lt("SE3", mats_to_se3(estM[keep])))
+    kw0 = dict(diff=diff, offset=offset)
+    for align, scale in ((False, False), (True, False), (True, True)):
+        sT, RT, tT = umeyama(eA[:, :3, 3], rA[:, :3, 3], scale) if align else (LD(1), np.eye(3, dtype=LD), np.zeros(3, dtype=LD))
+        cond, spread = align_condition(rA[:, :3, 3], eA[:, :3, 3]) if align else (1.0, 1.0)
+        if align and (not np.isfinite(cond) or cond > 1e4):
+            ck.note_add("ape_alignment_ill_conditioned_skipped")
+            continue
+        t_al = float(sT) * np.matmul(eA[:, :3, 3], RT.T) + tT
+        R_al = np.matmul(RT, eA[:, :3, :3])
+        err_t = np.sqrt(((t_al - rA[:, :3, 3]) ** 2).sum(-1))
+        err_a = L.rotation_angle(np.matmul(np.swapaxes(R_al, -1, -2), rA[:, :3, :3]))
+        tmax = max(float(np.abs(f64(rA[:, :3, 3])).max()), float(np.abs(f64(eA[:, :3, 3])).max()), float(np.abs(f64(t_al)).max()))
+        # a similarity (rigid when scale is off) applied to the estimate
+        s1 = float(np.exp(rng.uniform(-1.2, 1.2))) if scale else 1.0
+        S1 = random_pose_mats(rng, 1, float(rng.choice([1.0, 30.0])))[0]
+        S1[:3, :3] = S1[:3, :3] * LD(s1)
+        moved = Traj(est_full[0], sim_apply(S1, est_full[1]))
+        c2, sp2 = align_condition(rA[:, :3, 3], sim_apply(S1, estM[keep])[:, :3, 3]) if align else (1.0, 1.0)
+        for etype in ETYPES:
+            reg = f"ape/{etype}/{mode}/align={align}/scale={scale}"
+            kw = dict(kw0, etype=etype, align=align, scale=scale)
+            a = call_metric(ck, "ape", ref, est, reg, n_expected=nm, **kw)
+            if a is None:
+                continue
+            sc = align_scale(etype, tmax, cond, spread, max(float(sT), 1e-300)) if align else etype_scale(etype, tmax)
+            if etype in ("translation", "radian", "degree"):
+                errs = err_t if etype == "translation" else (err_a if etype == "radian" else err_a * (180 / np.pi))
+                ck.count("ape.aligned_reference", reg, key=(N, mode, align, scale, etype, refM[0].tobytes()))
+                ck.ratio("ape.aligned_reference", reg, stats_vs_errors(a, errs), (C_ALIGN if align else C_MET) * u * sc, "metric.ape",
+                         "differs_from_error_of_independently_aligned_estimate" if align else "differs_from_documented_error",
+                         {"N": N, "n_ref": int(ref.poses.shape[0]), "n_est": int(est.poses.shape[0]), "matched": nm, "etype": etype,
+                          "align": align, "scale": scale, "own_scale": float(sT), "cond": cond, "stats": a,
+                          "expected_rmse": float(np.sqrt((f64(errs) ** 2).mean()))})
+            if align and np.isfinite(c2) and c2 <= 1e4:
+                b = call_metric(ck, "ape", ref, moved, reg + "/moved", n_expected=nm, **kw)
+                if b is None:
+                    continue
+                sc2 = align_scale(etype, max(tmax, moved.tmax()), max(cond, c2), min(spread, sp2), s1)
+                ck.count("ape.align_invariance", reg, key=(N, mode, align, scale, etype, refM[0].tobytes()))
+                ck.ratio("ape.align_invariance", reg, stat_diffs(a, b, nm), C_ALIGN * u * sc2, "metric.ape",
+                         "changed_by_similarity_transform_of_estimate" if scale else "changed_by_rigid_transform_of_estimate",
+                         {"N": N, "n_ref": int(ref.poses.shape[0]), "n_est": int(est.poses.shape[0]), "matched": nm, "etype": etype,
+                          "align": align, "scale": scale, "s": s1, "cond": max(cond, c2), "stats": a, "stats_moved": b})
+
+
 def run_metrics(ck):
     rng = ck.rng("metrics")
     thorough = ck.tier == "thorough"
@@ -867,6 +986,10 @@ def run_metrics(ck):
                     npairs = len(keep) if which == "ape" else len(pairs_frames(len(keep), 1, kw.get("all", False)))
                     call_metric(ck, which, ref, est, f"offset/{which}/{'ref' if drop_ref else 'est'}-shorter",
                                 n_expected=npairs, twice=True, offset=off, **kw)
+    modes = ["est-longer", "est-shorter", "equal"]
+    for i in range(18 if thorough else 3):
+        mode = modes[(i + ck.shard) % 3]
+        check_unequal(ck, rng, int(rng.choice([5, 8, 20, 60, 120, 200])), mode)
     npl = 40 if thorough else 8
     for i in range(npl):
         check_planted(ck, rng, int(rng.choice([3, 4, 7, 20, 60, 200])) if i else 3)
@@ -880,6 +1003,8 @@ def run_metrics(ck):
     ck.floor("metric.consistency", 200)
     ck.floor("metric.purity", 300)
     ck.floor("metric.planted", 20)
+    ck.floor("ape.aligned_reference", 60)
+    ck.require("ape/lengths:est-longer", "ape/lengths:est-shorter", "ape/lengths:equal")
 
 
 # ---------------------------------------------------------------------------------------------
